@@ -86,6 +86,44 @@ func c19Build(cfg c19Config, up *world.Upstream) (*Proxy, string) {
 	return mustProxy(pc), htfile
 }
 
+// c19WhitelistEdges: host[:port] forms on the boundary of each whitelist entry (of a stock wildcard
+// entry when the operator configured none).
+func c19WhitelistEdges(entries []string) []string {
+	if len(entries) == 0 {
+		entries = []string{".example.com"}
+	}
+	seen := map[string]bool{}
+	var out []string
+	add := func(h string) {
+		if h != "" && !seen[h] {
+			seen[h] = true
+			out = append(out, h)
+		}
+	}
+	for _, w := range entries {
+		host, port := w, ""
+		if i := strings.LastIndexByte(w, ':'); i >= 0 && !strings.Contains(w[i:], "]") {
+			host, port = w[:i], w[i+1:]
+		}
+		bare := strings.TrimPrefix(strings.TrimPrefix(host, "*"), ".")
+		add(host)
+		add("." + bare)
+		add(bare)
+		add(".." + bare)
+		add("x." + bare)
+		add("*." + bare)
+		add(bare + ".")
+		add(bare + ":")
+		add(bare + ":0")
+		add("." + bare + ":8080")
+		if port != "" {
+			add(bare + ":*")
+			add(bare + ":65536")
+		}
+	}
+	return out
+}
+
 type c19Alt struct {
 	Name string
 	// apply edits the request description
@@ -126,6 +164,15 @@ func c19Fields(px *Proxy, idp *world.IdP, validCookie string, csrfCookie, goodSt
 		prefix + "/callback?code=c;state=x", prefix + "/callback?%zz=1&state=a:b",
 	} {
 		targets = append(targets, tgt(t))
+	}
+	// redirect hosts at the edges of what the operator whitelisted: the entry itself as a host, without
+	// and with a further leading dot, with an empty / zero / wildcard port
+	edges := c19WhitelistEdges(px.Opts.WhitelistDomains)
+	for i, h := range edges {
+		targets = append(targets, tgt(prefix+"/sign_out?rd="+url.QueryEscape("http://"+h+"/x")))
+		if i%3 == 0 {
+			targets = append(targets, tgt(prefix+"/start?rd="+url.QueryEscape("https://"+h+"/")), tgt(prefix+"/sign_in?rd="+url.QueryEscape("//"+h)))
+		}
 	}
 	targets = append(targets, c19Alt{Name: "target=*", Apply: func(r *world.Req) { r.Target = "*"; r.Method = "OPTIONS" }})
 
@@ -239,6 +286,11 @@ func c19Fields(px *Proxy, idp *world.IdP, validCookie string, csrfCookie, goodSt
 		{"Forwarded", "for=1.2.3.4;host=x"}, {"X-Request-Id", strings.Repeat("r", 3000)},
 	} {
 		fw = append(fw, c19Alt{Name: "fwd=" + hv[0] + ":" + clip(hv[1]), Apply: setHeader(hv[0], hv[1])})
+	}
+	for i, h := range edges {
+		if i%2 == 0 {
+			fw = append(fw, c19Alt{Name: "fwd=X-Auth-Request-Redirect:http://" + clip(h), Apply: setHeader("X-Auth-Request-Redirect", "http://"+h+"/")})
+		}
 	}
 
 	hosts := []c19Alt{}
